@@ -41,6 +41,17 @@ pub const STRING_POOL: &[&str] = &[
     "0",
     "-1",
     "1.5",
+    // a dictionary of strings real producers write (extension names, source extensions, file names)
+    "SPV_KHR_non_semantic_info",
+    "SPV_EXT_mesh_shader",
+    "SPV_KHR_storage_buffer_storage_class",
+    "GL_EXT_mesh_shader",
+    "GL_NV_mesh_shader",
+    "GL_GOOGLE_include_directive",
+    "GL_KHR_shader_subgroup_basic",
+    "OpenCL.std.100",
+    "main.frag",
+    "Linked by SPIR-V Tools Linker",
 ];
 
 #[derive(Clone, Copy, Debug, PartialEq, Eq)]
